@@ -1241,7 +1241,7 @@ func runC12(r *Rng, tier string, n int) {
 	if tier == "thorough" {
 		k = 10
 	}
-	for i := 0; i < 4*k; i++ {
+	for i := 0; i < 8*k; i++ {
 		runScriptedUDP(r, 300)
 		runScriptedTCP(r, 8, 12)
 	}
